@@ -76,7 +76,16 @@ AsymBase == [
   ed25519a |-> [kty |-> "OKP", bits |-> 256, crv |-> "Ed25519"],
   ed25519b |-> [kty |-> "OKP", bits |-> 256, crv |-> "Ed25519"],
   ed448a |-> [kty |-> "OKP", bits |-> 456, crv |-> "Ed448"],
-  ed448b |-> [kty |-> "OKP", bits |-> 456, crv |-> "Ed448"] ]
+  ed448b |-> [kty |-> "OKP", bits |-> 456, crv |-> "Ed448"],
+  \* EC keys whose x, y or d has a leading zero byte (fixed-width encodings matter)
+  p256zx |-> [kty |-> "EC", bits |-> 256, crv |-> "P-256"], p256zy |-> [kty |-> "EC", bits |-> 256, crv |-> "P-256"],
+  p256zd |-> [kty |-> "EC", bits |-> 256, crv |-> "P-256"],
+  p384zx |-> [kty |-> "EC", bits |-> 384, crv |-> "P-384"], p384zy |-> [kty |-> "EC", bits |-> 384, crv |-> "P-384"],
+  p384zd |-> [kty |-> "EC", bits |-> 384, crv |-> "P-384"],
+  p521zx |-> [kty |-> "EC", bits |-> 521, crv |-> "P-521"], p521zy |-> [kty |-> "EC", bits |-> 521, crv |-> "P-521"],
+  p521zd |-> [kty |-> "EC", bits |-> 521, crv |-> "P-521"],
+  k256zx |-> [kty |-> "EC", bits |-> 256, crv |-> "secp256k1"], k256zy |-> [kty |-> "EC", bits |-> 256, crv |-> "secp256k1"],
+  k256zd |-> [kty |-> "EC", bits |-> 256, crv |-> "secp256k1"] ]
 
 \* A key descriptor: what the driver is asked to export as a JWK.
 \*   base/bits/var identify the material; priv: 1 = private form; alg, kid,
